@@ -45,7 +45,7 @@ CONFIG = {
 
 def cfg_fn(rng, ctx):
     depth = int(rng.choice([1, 2, 2])) if ctx.quick() else int(rng.choice([1, 2, 2, 3]))
-    return gen.Cfg(depth=depth, allow_zero_len=True, literal_ret=0.25, hostile_idx=rng.random() < 0.2)
+    return gen.Cfg(depth=depth, allow_zero_len=True, literal_ret=0.25, hostile_idx=rng.random() < 0.2, weights={"Dimap": 2.0})
 
 
 def nontrivial(case, hist):
